@@ -1,7 +1,8 @@
 From Mds Require Import Common.ExtractBase Gen.MbitsIdx Gen.MstrMasks Mbits.BytesBase Mbits.MbitsModel Mbits.MbitsSpec
-  Mstr.MstrModel Mstr.MstrSpec.
+  Mstr.MstrModel Mstr.MstrSpec Mstr.MstrLinesModel.
 Require Extraction.
 Require Import ExtrOcamlBasic.
 Extraction "bytes_model.ml" MbitsModel.zero MbitsModel.leading_zeroes MbitsModel.trailing_zeroes
   MstrModel.trunc MstrModel.compare_natural MstrModel.compare_natural_wide MstrModel.parse_int
-  MstrSpec.key MstrSpec.wkey MstrSpec.key_cmp MstrSpec.valid_utf8b MstrSpec.normal_form base_types.
+  MstrSpec.key MstrSpec.wkey MstrSpec.key_cmp MstrSpec.valid_utf8b MstrSpec.normal_form
+  MstrLinesModel.lines MstrLinesModel.split base_types.
